@@ -576,6 +576,8 @@ pub struct OwnInfo {
     pub durable_txid: u64,
     pub regions: usize,
     pub persistent_ids: Vec<u64>,
+    /// the allocated order-0 pages (region, index), ascending
+    pub allocated_list: Vec<(u32, u32)>,
 }
 
 /// The page-ownership equation at a transaction boundary (no live write transaction), from the H3
@@ -629,6 +631,7 @@ fn own_check_inner(db: &Database) -> Result<OwnInfo, String> {
         return Err(d);
     }
     info.allocated = allocated.len();
+    info.allocated_list = allocated.iter().copied().collect();
     info.snapshot_txid = reach.allocator_state_transaction_id;
     info.latest_txid = latest.transaction_id;
     info.durable_txid = snap.mem.durable().transaction_id;
